@@ -1,6 +1,7 @@
 pub mod doc;
 pub mod field;
 pub mod node;
+pub mod ordered_map;
 pub mod soap;
 pub mod structures;
 
